@@ -45,6 +45,9 @@ pub struct Params {
     pub p_root_union: u32,
     /// random sort_rank permutation (else identity = listing order)
     pub p_perm_rank: u32,
+    /// when > 0: the last package gets a log-uniformly distributed number of candidates up to this
+    /// (hundreds to thousands: thresholds that ordinary universes never reach)
+    pub big_pkg: usize,
 }
 
 impl Default for Params {
@@ -77,6 +80,7 @@ impl Default for Params {
             p_unlisted: 0,
             p_root_union: 150,
             p_perm_rank: 600,
+            big_pkg: 0,
         }
     }
 }
@@ -161,6 +165,24 @@ impl Params {
         }
     }
 
+    /// One package with up to several thousand candidates next to a handful of ordinary
+    /// ones; the other knobs are kept small so that the tape is spent on that package.
+    pub fn huge_package(max: usize) -> Self {
+        Params {
+            min_pkgs: 2,
+            max_pkgs: 5,
+            max_cands: 3,
+            max_reqs: 2,
+            max_constrains: 1,
+            p_union: 80,
+            p_unknown: 60,
+            min_root_reqs: 1,
+            max_root_reqs: 3,
+            big_pkg: max,
+            ..Params::default()
+        }
+    }
+
     /// Hundreds of packages with one or two candidates each and a root that requires most of
     /// them: more than 128 requests in flight at once, more than 256 solvables and ids on
     /// both sides of every chunk boundary of the solver's tables.
@@ -234,6 +256,13 @@ fn assign_ids(t: &mut Tape, n: usize, w: &[u32; 3], max_gap: usize) -> Vec<u32> 
             p.into_iter().map(|i| ids[i]).collect()
         }
     }
+}
+
+/// log-uniform in [2, max]: 2^e + below(2^e)
+fn big_count(t: &mut Tape, max: usize) -> usize {
+    let bits = (usize::BITS - max.leading_zeros()) as usize;
+    let e = 1 + t.below(bits.max(2) - 1);
+    ((1usize << e) + t.below(1 << e)).min(max)
 }
 
 struct Builder<'p> {
@@ -356,6 +385,8 @@ pub fn gen_universe(t: &mut Tape, p: &Params) -> Universe {
             0
         } else if t.chance(p.p_empty_pkg, 1000) {
             0
+        } else if pi + 1 == np && p.big_pkg > 0 {
+            big_count(t, p.big_pkg)
         } else {
             1 + t.below(p.max_cands.max(1))
         };
@@ -556,7 +587,11 @@ pub fn gen_conflict_free(t: &mut Tape, p: &Params, with_hints: bool) -> (Univers
     let np = t.range(p.min_pkgs.max(2), p.max_pkgs.max(2));
     let mut target: Vec<usize> = vec![];
     for pi in 0..np {
-        let nc = 1 + t.below(p.max_cands.max(1));
+        let nc = if pi + 1 == np && p.big_pkg > 0 {
+            big_count(t, p.big_pkg)
+        } else {
+            1 + t.below(p.max_cands.max(1))
+        };
         let cands = (0..nc)
             .map(|ci| Cand {
                 sid: 0,
